@@ -556,6 +556,26 @@ pub fn hostile(groups: &mut Vec<Group>) {
     ));
     m.push_def(def("Ho13", Type::Enumerated { root: vec![EnumItem { name: "a".into(), num: None }, EnumItem { name: "b".into(), num: None }, EnumItem { name: "c".into(), num: None }], ext: Some(vec![EnumItem { name: "d".into(), num: None }]) }));
     m.push_def(def("Ho14", Type::Integer { c: Some(IntC { lo: Bound::Lit(5), hi: Bound::Max, ext: false }), named: vec![] }));
+    // lists of *large* elements: a decoder that reserves `length x size_of(element)` from an untrusted length determinant
+    // before reading needs > 64 MiB for a 3-octet input here (elements are never zero bits wide: strict bound applies)
+    m.push_def(def(
+        "Ho15",
+        Type::Sequence(Comps { root: (0..60).map(|i| Comp { name: format!("f{}", i), tag: None, ty: Type::OctetString { size: Size::None }, presence: Presence::Mandatory }).collect(), ext: None }),
+    ));
+    m.push_def(def("Ho16", Type::SequenceOf { elem: Box::new(Type::Ref("Ho15".into())), size: Size::None }));
+    m.push_def(def(
+        "Ho17",
+        Type::SequenceOf {
+            elem: Box::new(Type::Sequence(Comps {
+                root: vec![
+                    Comp { name: "l".into(), tag: None, ty: Type::Ref("Ho16".into()), presence: Presence::Mandatory },
+                    Comp { name: "m".into(), tag: None, ty: Type::SetOf { elem: Box::new(Type::Ref("Ho15".into())), size: big(1, None) }, presence: Presence::Mandatory },
+                ],
+                ext: None,
+            })),
+            size: Size::None,
+        },
+    ));
     groups.push(Group::new("hostile", vec![m]));
 }
 
